@@ -1,1 +1,305 @@
-//! (families added below)
+//! Routing families: C07 (bans and failover), C05 (roles), C06 (shards).
+
+use super::*;
+
+fn q(sql: String, txn: u32) -> Step {
+    Step::Send { msgs: vec![FrontMsg::Q { sql }], rfq: None, cut: None, abort: false, txn }
+}
+
+#[derive(Clone, Debug)]
+pub struct FaultWin {
+    pub host: String,
+    pub kind: String,
+    pub from_ms: u64,
+    pub to_ms: u64,
+}
+
+/// C07: one shard with 0..3 replicas, with or without a primary; fault scripts per server;
+/// admin BAN/UNBAN; ban_time small enough to expire inside a run; clients requesting
+/// primary/replica/any.
+pub fn c07(rng: &mut Rng, thorough: bool, idx: u64) -> Spec {
+    if idx % 4 == 3 {
+        return c07_expiry(rng, thorough);
+    }
+    let has_primary = rng.chance(0.7);
+    let nrep = if has_primary { rng.range(0, 3) } else { rng.range(1, 3) } as usize;
+    let mut servers: Vec<(String, u16, String)> = Vec::new();
+    if has_primary {
+        servers.push(("pg-s0-p".into(), 5432, "primary".into()));
+    }
+    for i in 0..nrep {
+        servers.push((format!("pg-s0-r{}", i), 5432, "replica".into()));
+    }
+    let nclients = rng.range(2, if thorough { 6 } else { 4 }) as u32;
+    // ample capacity: waiting for a free connection must not be confused with waiting on a dead server
+    let pool_size = nclients + 2;
+    let mut cfg = Cfg::new();
+    let mut pool = PoolDef::simple("db", "transaction", vec![UserDef::new("app", "apppw", pool_size)], vec![ShardDef { id: "0".into(), database: "db".into(), servers: servers.clone(), mirrors: vec![] }]);
+    pool.lb = rng.pick(&["random", "loc"]).to_string();
+    pool.default_role = rng.pick(&["any", "any", "replica", "primary"]).to_string();
+    if pool.default_role == "primary" && !has_primary {
+        pool.default_role = "replica".into();
+    }
+    if pool.default_role == "replica" && nrep == 0 {
+        pool.default_role = "any".into();
+    }
+    let stmt_timeout = rng.range(300, 800);
+    pool.users[0].statement_timeout = stmt_timeout;
+    cfg.pools.push(pool);
+    let connect_timeout = rng.range(300, 800);
+    let hc_timeout = rng.range(100, 400);
+    let hc_delay = *rng.pick(&[0u64, 0, 100, 30000]);
+    let ban_time = rng.range(1, 4);
+    cfg.set("connect_timeout", connect_timeout);
+    cfg.set("healthcheck_timeout", hc_timeout);
+    cfg.set("healthcheck_delay", hc_delay);
+    cfg.set("ban_time", ban_time);
+    cfg.set("idle_timeout", 3000);
+    cfg.server_auth = rng.pick(&["md5", "trust"]).to_string();
+
+    // ---- fault script ----
+    let horizon = rng.range(1500, if thorough { 9000 } else { 5000 });
+    let mut wins: Vec<FaultWin> = Vec::new();
+    let mut actions: Vec<ActionSpec> = Vec::new();
+    let faultable: Vec<String> = servers.iter().filter(|(_, _, r)| r == "replica" || rng.chance(0.25)).map(|(h, p, _)| format!("{}:{}", h, p)).collect();
+    for host in &faultable {
+        let mut t = rng.range(20, 600);
+        let nf = rng.range(0, 2);
+        for _ in 0..nf {
+            if t >= horizon {
+                break;
+            }
+            let kind = *rng.pick(&["down", "down", "silent", "reject_startup", "hang"]);
+            // mostly short outages; sometimes one that outlasts every configured timeout many times over
+            let dur = if rng.chance(0.25) { rng.range(8000, 20000) } else { rng.range(200, 2500) };
+            let end = if kind == "hang" { 10_000_000 } else { t + dur };
+            match kind {
+                "down" => {
+                    actions.push(ActionSpec { at: When::AtMs { ms: t }, act: Action::HostMode { host: host.clone(), mode: "refuse".into() } });
+                    actions.push(ActionSpec { at: When::AtMs { ms: t }, act: Action::KillConns { host: host.clone(), how: rng.pick(&["fin", "rst"]).to_string() } });
+                    actions.push(ActionSpec { at: When::AtMs { ms: end }, act: Action::HostMode { host: host.clone(), mode: "up".into() } });
+                }
+                "silent" => {
+                    actions.push(ActionSpec { at: When::AtMs { ms: t }, act: Action::HostBehaviour { host: host.clone(), b: "silent".into() } });
+                    actions.push(ActionSpec { at: When::AtMs { ms: end }, act: Action::HostBehaviour { host: host.clone(), b: "normal".into() } });
+                }
+                "reject_startup" => {
+                    actions.push(ActionSpec { at: When::AtMs { ms: t }, act: Action::HostBehaviour { host: host.clone(), b: "reject_startup".into() } });
+                    actions.push(ActionSpec { at: When::AtMs { ms: t }, act: Action::KillConns { host: host.clone(), how: "fin".into() } });
+                    actions.push(ActionSpec { at: When::AtMs { ms: end }, act: Action::HostBehaviour { host: host.clone(), b: "normal".into() } });
+                }
+                _ => {
+                    // black hole: connects never complete; never recovers inside the run
+                    actions.push(ActionSpec { at: When::AtMs { ms: t }, act: Action::HostMode { host: host.clone(), mode: "hang".into() } });
+                    actions.push(ActionSpec { at: When::AtMs { ms: t }, act: Action::KillConns { host: host.clone(), how: "rst".into() } });
+                }
+            }
+            wins.push(FaultWin { host: host.clone(), kind: kind.to_string(), from_ms: t, to_ms: end });
+            if kind == "hang" {
+                break;
+            }
+            t = end + rng.range(300, 1500);
+        }
+    }
+    // ---- admin BAN / UNBAN ----
+    let mut admin_steps: Vec<Step> = Vec::new();
+    let replicas: Vec<String> = servers.iter().filter(|(_, _, r)| r == "replica").map(|(h, _, _)| h.clone()).collect();
+    if rng.chance(0.5) {
+        let mut t_prev = 0;
+        for _ in 0..rng.range(1, 3) {
+            let t = rng.range(10, horizon);
+            admin_steps.push(Step::Think { ms: t.saturating_sub(t_prev).max(1) });
+            t_prev = t;
+            let target = if has_primary && rng.chance(0.2) { "pg-s0-p".to_string() } else if !replicas.is_empty() { rng.pick(&replicas).clone() } else { "pg-s0-p".to_string() };
+            if rng.chance(0.7) {
+                admin_steps.push(q(format!("BAN {} {}", target, rng.range(1, 5)), 0));
+            } else {
+                admin_steps.push(q(format!("UNBAN {}", target), 0));
+            }
+            if rng.chance(0.5) {
+                admin_steps.push(q("SHOW BANS".into(), 0));
+            }
+        }
+    }
+    admin_steps.push(Step::Terminate);
+    let mut clients = Vec::new();
+    let mut admin = admin_client(500, "main", When::AtMs { ms: 0 }, &[]);
+    admin.steps = admin_steps;
+    clients.push(admin);
+
+    // ---- workers ----
+    let mut client_roles = serde_json::Map::new();
+    let mut next_id = 1u32;
+    for _ in 0..nclients {
+        // a worker is a sequence of short-lived sessions (PgCat drops the client when its server breaks)
+        let role = *rng.pick(&["default", "default", "replica", "primary", "any"]);
+        let role = match role {
+            "replica" if nrep == 0 => "default",
+            "primary" if !has_primary => "default",
+            r => r,
+        };
+        let mut t0 = rng.range(0, 100);
+        let sessions = rng.range(2, if thorough { 8 } else { 5 });
+        let mut prev: Option<u32> = None;
+        for _ in 0..sessions {
+            let id = next_id;
+            next_id += 1;
+            let mut p = Prog::new(id);
+            if role != "default" {
+                p.steps.push(q(format!("SET SERVER ROLE TO '{}'", role), 0));
+            }
+            let n = rng.range(2, 8);
+            for _ in 0..n {
+                p.new_txn();
+                match rng.below(10) {
+                    0 => {
+                        // the server breaks while executing this statement
+                        let t = p.tag();
+                        p.simple(format!("SELECT '{}', sim_rows(3), sim_close({}){}", t, rng.range(0, 60), if rng.chance(0.5) { ", sim_rst()" } else { "" }));
+                    }
+                    1 => {
+                        let t = p.tag();
+                        p.simple(format!("BEGIN /* {} */", t));
+                        let s = p.select(1, 0, "");
+                        p.simple(s);
+                        p.think(rng.range(1, 50));
+                        let t = p.tag();
+                        p.simple(format!("COMMIT /* {} */", t));
+                    }
+                    _ => {
+                        let s = p.select(1, 0, "");
+                        p.simple(s);
+                    }
+                }
+                p.think(rng.range(5, 150));
+            }
+            p.steps.push(Step::Terminate);
+            let mut c = client(id, "app", "db", "apppw", t0, p.steps);
+            if let Some(pid) = prev {
+                c.start = When::After { ev: format!("c{}.done", pid), delay_ms: rng.range(1, 200) };
+            }
+            c.patience_ms = 120_000;
+            client_roles.insert(id.to_string(), serde_json::json!(role));
+            clients.push(c);
+            prev = Some(id);
+            t0 = 0;
+        }
+    }
+    // ---- final phase: everything healed (except black holes), bb8's reaper flushed stale connections ----
+    let mut fid = 900;
+    for role in ["any", "replica", "primary"] {
+        if (role == "replica" && nrep == 0) || (role == "primary" && !has_primary) {
+            continue;
+        }
+        fid += 1;
+        let mut p = Prog::new(fid);
+        p.steps.push(q(format!("SET SERVER ROLE TO '{}'", role), 0));
+        for _ in 0..3 {
+            p.new_txn();
+            let s = p.select(1, 0, "");
+            p.simple(s);
+        }
+        p.steps.push(Step::Terminate);
+        let mut c = client(fid, "app", "db", "apppw", 0, p.steps);
+        c.phase = "final".into();
+        c.role = "probe".into();
+        c.patience_ms = 120_000;
+        client_roles.insert(fid.to_string(), serde_json::json!(role));
+        clients.push(c);
+    }
+    let net = if rng.chance(0.5) { net_calm() } else { NetSpec { chaos: *rng.pick(&[0.0, 0.05, 0.15]), latency_ms: (0, *rng.pick(&[0u64, 1, 3])), ..net_swarm(rng) } };
+    let mut spec = Spec { config_toml: cfg.render(), hosts: cfg.hosts(), net, clients, actions, end: EndSpec { deadline_ms: 3_000_000, calm_ms: 12_000 }, ..Default::default() };
+    spec.params = params_from(&cfg);
+    spec.params.insert("client_roles".into(), serde_json::Value::Object(client_roles));
+    spec.params.insert("default_role".into(), serde_json::json!(cfg.pools[0].default_role));
+    spec.params.insert("fault_windows".into(), serde_json::json!(wins.iter().map(|w| serde_json::json!({"host": w.host, "kind": w.kind, "from_ms": w.from_ms, "to_ms": w.to_ms})).collect::<Vec<_>>()));
+    spec.params.insert("connect_timeout".into(), serde_json::json!(connect_timeout));
+    spec.params.insert("healthcheck_timeout".into(), serde_json::json!(hc_timeout));
+    spec.params.insert("healthcheck_delay".into(), serde_json::json!(hc_delay));
+    spec.params.insert("statement_timeout".into(), serde_json::json!(stmt_timeout));
+    spec.params.insert("ban_time".into(), serde_json::json!(ban_time));
+    spec.params.insert("server_faults".into(), serde_json::json!(true));
+    spec.family = format!("bans/{}replicas{}", nrep, if has_primary { "+primary" } else { "" });
+    spec.oracles = vec!["c07_bans".into(), "liveness".into()];
+    spec
+}
+
+/// C07 sub-family: a ban must end. Two healthy replicas, clients asking for role replica with
+/// random load balancing; R0 is banned by the admin for a short duration (or banned by a fault
+/// with a short ban_time, or unbanned by UNBAN). Before the end of the ban R0 receives nothing;
+/// afterwards, over >= 60 further checkouts, it must be chosen at least once (p = 2^-60 otherwise).
+pub fn c07_expiry(rng: &mut Rng, _thorough: bool) -> Spec {
+    let has_primary = rng.chance(0.5);
+    let mut servers: Vec<(String, u16, String)> = Vec::new();
+    if has_primary {
+        servers.push(("pg-s0-p".into(), 5432, "primary".into()));
+    }
+    servers.push(("pg-s0-r0".into(), 5432, "replica".into()));
+    servers.push(("pg-s0-r1".into(), 5432, "replica".into()));
+    let mut cfg = Cfg::new();
+    let mut pool = PoolDef::simple("db", "transaction", vec![UserDef::new("app", "apppw", 4)], vec![ShardDef { id: "0".into(), database: "db".into(), servers, mirrors: vec![] }]);
+    pool.lb = "random".into();
+    pool.default_role = "replica".into();
+    cfg.pools.push(pool);
+    let ban_time = rng.range(1, 3);
+    cfg.set("ban_time", ban_time);
+    cfg.set("connect_timeout", 500);
+    cfg.set("healthcheck_delay", *rng.pick(&[0u64, 30000]));
+    let mode = *rng.pick(&["admin_ban", "fault_ban", "admin_unban"]);
+    let mut actions = Vec::new();
+    let mut admin_steps = vec![Step::Think { ms: 50 }];
+    let ban_secs;
+    match mode {
+        "admin_ban" => {
+            ban_secs = rng.range(1, 3);
+            admin_steps.push(q(format!("BAN pg-s0-r0 {}", ban_secs), 0));
+            admin_steps.push(Step::Emit { ev: "banned".into() });
+        }
+        "admin_unban" => {
+            ban_secs = 1;
+            admin_steps.push(q("BAN pg-s0-r0 3600".into(), 0));
+            admin_steps.push(Step::Emit { ev: "banned".into() });
+            admin_steps.push(Step::Think { ms: 1000 });
+            admin_steps.push(q("UNBAN pg-s0-r0".into(), 0));
+        }
+        _ => {
+            ban_secs = ban_time;
+            // R0 refuses connections for a moment: the next checkout bans it for ban_time
+            actions.push(ActionSpec { at: When::AtMs { ms: 50 }, act: Action::HostMode { host: "pg-s0-r0:5432".into(), mode: "refuse".into() } });
+            actions.push(ActionSpec { at: When::AtMs { ms: 50 }, act: Action::KillConns { host: "pg-s0-r0:5432".into(), how: "fin".into() } });
+            actions.push(ActionSpec { at: When::AtMs { ms: 400 }, act: Action::HostMode { host: "pg-s0-r0:5432".into(), mode: "up".into() } });
+            actions.push(ActionSpec { at: When::AtMs { ms: 400 }, act: Action::Emit { ev: "banned".into() } });
+        }
+    }
+    admin_steps.push(Step::Emit { ev: "admin_done".into() });
+    admin_steps.push(Step::Terminate);
+    let mut clients = Vec::new();
+    let mut admin = admin_client(500, "main", When::AtMs { ms: 0 }, &[]);
+    admin.steps = admin_steps;
+    clients.push(admin);
+    // one steady client: a transaction every 20..40 ms for ban duration + 5 s
+    let mut p = Prog::new(1);
+    let total_ms = (ban_secs + 2) * 1000 + 4000;
+    let mut t = 0;
+    while t < total_ms {
+        p.new_txn();
+        let s = p.select(1, 0, "");
+        p.simple(s);
+        let d = rng.range(20, 40);
+        p.think(d);
+        t += d;
+    }
+    p.steps.push(Step::Terminate);
+    let mut c = client(1, "app", "db", "apppw", 0, p.steps);
+    c.patience_ms = 120_000;
+    clients.push(c);
+    let mut spec = Spec { config_toml: cfg.render(), hosts: cfg.hosts(), net: net_calm(), clients, actions, end: EndSpec { deadline_ms: 3_000_000, calm_ms: 100 }, ..Default::default() };
+    spec.params = params_from(&cfg);
+    spec.params.insert("expiry_mode".into(), serde_json::json!(mode));
+    spec.params.insert("ban_secs".into(), serde_json::json!(ban_secs));
+    spec.params.insert("ban_time".into(), serde_json::json!(ban_time));
+    spec.params.insert("server_faults".into(), serde_json::json!(true));
+    spec.family = format!("bans/expiry/{}", mode);
+    spec.oracles = vec!["c07_expiry".into(), "liveness".into()];
+    spec
+}
